@@ -36,8 +36,11 @@ def shapes(tier, prop):
         two = [(a, b) for a in range(0, 3) for b in range(0, 3)]
         return [()] + one + two
     one = [(n,) for n in range(0, 5)]
-    two = [(a, b) for a in range(0, 4) for b in range(0, 4)]
-    three = [(a, b, c) for a in range(0, 3) for b in range(0, 3) for c in range(0, 3)]
+    if prop == "C18":
+        two = [(a, b) for a in range(0, 3) for b in range(0, 3)]
+    else:
+        two = [(a, b) for a in range(0, 4) for b in range(0, 4)]
+    three = [(a, b, c) for a in range(0, 2) for b in range(0, 2) for c in range(0, 2)]
     return [()] + one + two + three
 
 
